@@ -28,7 +28,7 @@ type witness struct {
 }
 
 var witnesses = []witness{
-	{name: "finding-lit-signed-narrow", defect: "lit_signed_narrow", nzArg: -1, tys: []*Ty{tInt(8)},
+	{name: "repaired-lit-signed-narrow", nzArg: -1, tys: []*Ty{tInt(8)},
 		src: "package main\nfunc main(a int8) (bool, int8, int8) {\n\treturn a > 3, a / 3, a % 3\n}\n",
 		sx:  "( P 0 ( FN 3 ( ( a i8 ) ) ( ( R ( B gt ( V a ) ( L i8 3 ) ) ( B div ( V a ) ( L i8 3 ) ) ( B mod ( V a ) ( L i8 3 ) ) ) ) ) )"},
 	{name: "finding-inner-shadow", defect: "inner_shadow", nzArg: -1, tys: []*Ty{tInt(4), tyBool},
@@ -40,16 +40,16 @@ var witnesses = []witness{
 	{name: "finding-define-redeclared-rejected", defect: "define_redeclared_rejected", nzArg: -1, tys: []*Ty{tInt(4)},
 		src: "package main\nfunc main(a int4) int4 {\n\tvar s int4\n\tfor i := 0; i < 2; i++ {\n\t\tx := a + s\n\t\ts = s + x\n\t}\n\treturn s\n}\n",
 		sx:  "( P 0 ( FN 1 ( ( a i4 ) ) ( ( D s i4 ) ( FOR i 0 lt 2 1 ( ( DEF ( x ) ( B add ( V a ) ( V s ) ) ) ( A ( ( s ) ) ( B add ( V s ) ( V x ) ) ) ) ) ( R ( V s ) ) ) ) )"},
-	{name: "finding-named-result-zero", defect: "named_result_zero", nzArg: -1, tys: []*Ty{tInt(8)},
+	{name: "repaired-named-result-zero", nzArg: -1, tys: []*Ty{tInt(8)},
 		src: "package main\nfunc main(a int8) int8 {\n\treturn f(a)\n}\nfunc f(p int8) (r int8) {\n\tif p > int8(3) {\n\t\tr = p\n\t}\n\treturn\n}\n",
 		sx:  "( P 1 ( FN 1 ( ( p i8 ) ) ( ( D r i8 ) ( IF ( B gt ( V p ) ( L i8 3 ) ) ( ( A ( ( r ) ) ( V p ) ) ) ( ) ) ( R ( V r ) ) ) ) ( FN 1 ( ( a i8 ) ) ( ( R ( K 0 ( V a ) ) ) ) ) )"},
-	{name: "finding-const-cast-shared", defect: "const_cast_shared", nzArg: -1, tys: []*Ty{tUint(8)},
+	{name: "repaired-const-cast-shared", nzArg: -1, tys: []*Ty{tUint(8)},
 		src: "package main\nfunc main(a uint8) (uint8, uint8) {\n\treturn uint8(uint2(a) & uint2(3)), a + 3\n}\n",
 		sx:  "( P 0 ( FN 2 ( ( a u8 ) ) ( ( R ( C u8 ( B and ( C u2 ( V a ) ) ( L u2 3 ) ) ) ( B add ( V a ) ( L u8 3 ) ) ) ) ) )"},
 	{name: "finding-const-signed-widening", defect: "const_signed_widening", nzArg: -1, tys: []*Ty{tInt(40)},
 		src: "package main\nfunc main(a int40) (int40, int40) {\n\treturn a & 0xffffffff, a & int40(0xffffffff)\n}\n",
 		sx:  "( P 0 ( FN 2 ( ( a i40 ) ) ( ( R ( B and ( V a ) ( L i40 4294967295 ) ) ( B and ( V a ) ( L i40 4294967295 ) ) ) ) ) )"},
-	{name: "finding-const-left-unsigned", defect: "const_left_unsigned", nzArg: -1, tys: []*Ty{tUint(32)},
+	{name: "repaired-const-left-unsigned", nzArg: -1, tys: []*Ty{tUint(32)},
 		src: "package main\nfunc main(a uint32) (bool, bool) {\n\treturn 100 < a, a > 100\n}\n",
 		sx:  "( P 0 ( FN 2 ( ( a u32 ) ) ( ( R ( B lt ( L u32 100 ) ( V a ) ) ( B gt ( V a ) ( L u32 100 ) ) ) ) ) )"},
 
